@@ -273,12 +273,14 @@ class BaseObserver(EventDispatcher):
 
     def start(self) -> None:
         with self._lock:
-            for emitter in self._emitters.copy():
-                try:
-                    emitter.start()
-                except Exception:
-                    self._remove_emitter(emitter)
-                    raise
+            # An observer that was stopped already starts no emitter: nothing would stop it again.
+            if self.should_keep_running():
+                for emitter in self._emitters.copy():
+                    try:
+                        emitter.start()
+                    except Exception:
+                        self._remove_emitter(emitter)
+                        raise
             super().start()
 
     def schedule(
@@ -322,7 +324,7 @@ class BaseObserver(EventDispatcher):
             # If we don't have an emitter for this watch already, create it.
             if watch not in self._emitter_for_watch:
                 emitter = self._emitter_class(self.event_queue, watch, timeout=self.timeout, event_filter=event_filter)
-                if self.is_alive():
+                if self.is_alive() and self.should_keep_running():
                     emitter.start()
                 self._add_emitter(emitter)
             # Register the handler only once the emitter exists, so that a failed
